@@ -119,45 +119,38 @@ Lemma g_isub_eq' c ts s : g_isub c ts s = del_quads (map (fun t => (t, c)) ts) s
 Proof. apply g_isub_eq. Qed.
 
 (* DELETE WHERE: the loop is the deletion of the template's quads *)
-Lemma dw_one_eq e k tm s im : has_gvar tm = false ->
+Lemma dw_one_eq e k tm s im :
   dw_one e k tm s im = del_quads (m_quads e false k (fst im) (dflt e) tm (snd im)) s.
 Proof.
-  intros Hg. unfold dw_one, m_quads, blocks. simpl.
+  unfold dw_one, m_quads, blocks. simpl.
   rewrite del_quads_app, <- g_isub_eq'.
   generalize (g_isub (dflt e) (fill (fresh k (fst im)) (snd im) (t_triples tm)) s).
-  unfold has_gvar in Hg. revert Hg.
-  induction (t_quads tm) as [|b r IH]; intros Hg s0; simpl; auto.
-  simpl in Hg. apply orb_false_iff in Hg. destruct Hg as [Hb Hr].
-  rewrite del_quads_app. rewrite <- IH by auto. f_equal.
-  destruct b as [[c|v] ts]; simpl in *; [|discriminate].
-  rewrite g_isub_eq'. reflexivity.
+  induction (t_quads tm) as [|b r IH]; intros s0; simpl; auto.
+  rewrite del_quads_app. rewrite <- IH. f_equal.
+  destruct b as [[c|v] ts]; simpl.
+  - rewrite g_isub_eq'. reflexivity.
+  - destruct (lookup v (snd im)); [rewrite g_isub_eq'|]; reflexivity.
 Qed.
 
-Lemma dw_fold_eq e k tm : has_gvar tm = false -> forall om n s,
+Lemma dw_fold_eq e k tm : forall om n s,
   fold_left (dw_one e k tm) (enum_from n om) s =
   del_quads (flat_map (fun im => m_quads e false k (fst im) (dflt e) tm (snd im)) (enum_from n om)) s.
 Proof.
-  intros Hg. induction om as [|mu r IH]; intros n s; simpl; auto.
-  rewrite del_quads_app. rewrite dw_one_eq by auto. simpl. apply IH.
+  induction om as [|mu r IH]; intros n s; simpl; auto.
+  rewrite del_quads_app. rewrite dw_one_eq. simpl. apply IH.
 Qed.
 
 Lemma delete_where_ok e k tm om s a : scope e (DeleteWhere tm om) ->
-  op_kf e k (DeleteWhere tm om) = 0 ->
   kinv s -> qseteq (quads s) a -> step_ok e k (DeleteWhere tm om) s a.
 Proof.
-  intros Hd Hkf Hk Ha. unfold step_ok. simpl. unfold evalDeleteWhere.
+  intros Hd Hk Ha. unfold step_ok. simpl. unfold evalDeleteWhere.
   assert (E1 : negb (is_nil (t_quads tm)) && negb (has_dataset e) = false).
   { destruct Hd as [Hd|Hd]; [rewrite Hd; apply andb_false_r|]. simpl in Hd. rewrite Hd. reflexivity. }
-  rewrite E1. simpl in Hkf.
-  destruct (has_gvar tm) eqn:Hg.
-  - (* then omega is empty *)
-    destruct om as [|mu om']; [|simpl in Hkf; discriminate].
-    exists s. split; [reflexivity|split; auto].
-    intros q. rewrite qdiff_In. simpl. rewrite (Ha q). tauto.
-  - exists (del_quads (m_all e false k (dflt e) (Some tm) om) s). split; [|split].
-    + f_equal. simpl. apply dw_fold_eq; auto.
-    + intros q. rewrite del_quads_In, qdiff_In, (Ha q), m_all_eq. tauto.
-    + apply kinv_del_quads. auto.
+  rewrite E1.
+  exists (del_quads (m_all e false k (dflt e) (Some tm) om) s). split; [|split].
+  - f_equal. simpl. apply dw_fold_eq.
+  - intros q. rewrite del_quads_In, qdiff_In, (Ha q), m_all_eq. tauto.
+  - apply kinv_del_quads. auto.
 Qed.
 
 Lemma modify_ok e k w ud un d i om s a : scope e (Modify w ud un d i om) ->
